@@ -1750,6 +1750,12 @@ pub struct ConnectionH2<Front: SocketHandler> {
     /// backend's SETTINGS_MAX_CONCURRENT_STREAMS are open (RFC 9113 §5.1.2),
     /// lowest stream id first (§5.1.1).
     pub wire_opened: HashSet<StreamId>,
+    /// DATA bytes received on a stream and not yet credited back to the peer.
+    /// Stream credit follows the stream's buffer (see `release_stream_credit`):
+    /// the peer's remaining stream window never exceeds the free space of the
+    /// buffer its next DATA frame is read into, so reading DATA does not park
+    /// the whole connection behind a full buffer (control frames included).
+    pub recv_credit_owed: HashMap<StreamId, u32>,
     /// Lifetime counter of RST_STREAM frames queued (pending + already flushed).
     /// Used to detect sustained misbehavior even when writable() drains the
     /// pending queue between readable() calls.
@@ -1905,6 +1911,9 @@ impl<Front: SocketHandler> ConnectionH2<Front> {
             .and_then(|pool| pool.borrow_mut().checkout())?;
         let local_settings = H2Settings {
             settings_max_concurrent_streams: connection_config.max_concurrent_streams,
+            // A DATA frame is read straight into the stream's buffer: never let the
+            // peer have more in flight on a stream than that buffer can hold.
+            settings_initial_window_size: DEFAULT_INITIAL_WINDOW_SIZE.min(buffer.capacity() as u32),
             ..H2Settings::default()
         };
         let mut decoder = loona_hpack::Decoder::new();
@@ -1957,6 +1966,7 @@ impl<Front: SocketHandler> ConnectionH2<Front> {
             pending_rst_streams: Vec::new(),
             rst_sent: std::collections::HashSet::new(),
             wire_opened: std::collections::HashSet::new(),
+            recv_credit_owed: HashMap::new(),
             total_rst_streams_queued: 0,
             priorities_buf: Vec::new(),
             close_notify_sent: false,
@@ -3420,6 +3430,7 @@ impl<Front: SocketHandler> ConnectionH2<Front> {
             );
         }
         self.rst_sent.remove(&stream_id);
+        self.recv_credit_owed.remove(&stream_id);
         if self.wire_opened.remove(&stream_id)
             && self.streams.keys().any(|id| !self.wire_opened.contains(id))
         {
@@ -4152,6 +4163,7 @@ impl<Front: SocketHandler> ConnectionH2<Front> {
     where
         L: ListenerHandler + L7ListenerHandler,
     {
+        let credited = self.release_stream_credit(context);
         if let Some((
             H2StreamId::Other {
                 gid: global_stream_id,
@@ -4170,7 +4182,38 @@ impl<Front: SocketHandler> ConnectionH2<Front> {
                 return true;
             }
         }
-        false
+        credited
+    }
+
+    /// Return stream credit for received DATA as far as the stream's buffer has
+    /// room again: with `owed` bytes not yet credited the peer may still send
+    /// `announced - owed`; grant what keeps that within the buffer's free space.
+    /// Called after the other side of the session wrote (drained the buffers).
+    fn release_stream_credit<L>(&mut self, context: &Context<L>) -> bool
+    where
+        L: ListenerHandler + L7ListenerHandler,
+    {
+        let announced = self.local_settings.settings_initial_window_size;
+        let mut grants = Vec::new();
+        for (&stream_id, owed) in self.recv_credit_owed.iter_mut().filter(|(_, o)| **o > 0) {
+            let Some(&gid) = self.streams.get(&stream_id) else { continue };
+            let stream = &context.streams[gid];
+            let kawa = match self.position {
+                Position::Client(..) => &stream.back,
+                Position::Server => &stream.front,
+            };
+            let peer_window = announced.saturating_sub(*owed);
+            let room = (kawa.storage.available_space() as u32).saturating_sub(peer_window);
+            let grant = room.min(*owed);
+            if grant > 0 {
+                *owed -= grant;
+                grants.push((stream_id, grant));
+            }
+        }
+        for &(stream_id, grant) in &grants {
+            self.queue_window_update(stream_id, grant);
+        }
+        !grants.is_empty()
     }
 
     /// Mark a stream's position-appropriate end-of-stream flag.
@@ -5225,7 +5268,12 @@ impl<Front: SocketHandler> ConnectionH2<Front> {
         // Connection-level credit was already applied above the CL check so
         // malformed DATA cannot starve the connection window for other streams.
         if !data.end_stream {
-            self.queue_window_update(data.stream_id, wire_payload_len);
+            if is_unlinked {
+                // discarded below: nothing will occupy the buffer
+                self.queue_window_update(data.stream_id, wire_payload_len);
+            } else {
+                *self.recv_credit_owed.entry(data.stream_id).or_insert(0) += wire_payload_len;
+            }
         }
 
         // If we have pending updates, ensure we get a writable event.
